@@ -650,4 +650,52 @@ example : (⟨0, 1, []⟩ : MState Match).l < [((.cell (.int 1) : Val), [0]), (.
 #guard (listbyG [.tuple [.cell (.int 2)], .tuple [.cell .nan], .tuple [.cell (.flt 8)],
     .tuple [.cell .nan]]).map (·.2) == [[0, 2], [1, 3]]
 
+/-! ## round h1: key columns that repeat a name, xor's key errors -/
+
+/-- **join when two key columns carry ONE name** (`x.join(y, ['a','a'], ['a','b'])`, `[f, g]` against `['k','k']`: "any choice of key columns").
+The branch `join_spec` excludes (`cols.Nodup`).  The call computes the SAME triples `kp` — the `(left, right)` parts are exactly the key-equal
+index pairs as a multiset, the carried key is `cmp`-equal to both rows' keys — and the same table as the main branch, `joinTableOf`, except that
+its key part is read as `dict(zip(names, columns))` (`dictOf`: a repeated name keeps the place of its first and the cells of its last
+occurrence — whose components are `keyEq` to one another row by row, `key_carried`).  Nothing else differs: every non-key column is the one
+`join_col_left/right/both` describe. -/
+theorem join_dup_spec (x y : Table) (lc rc : List KeySpec) (mode : Mode)
+    (cols : List String) (lk rk : List Val)
+    (hlen : lc.length = rc.length) (hcols : joinColNames lc rc = .ok cols)
+    (hnd : ¬ cols.Nodup)
+    (hlk : x.keysOf lc = .ok lk) (hrk : y.keysOf rc = .ok rk) :
+    ∃ (kp : List (Val × Nat × Nat)) (body : VTable),
+      join x y (some lc) (some rc) mode =
+        some (.ok (dictOf (cols.zipIdx.map fun c => (c.1, kp.map fun p => tupleGet c.2 p.1)) ++ body)) ∧
+      joinTableOf x y cols mode kp = (cols.zipIdx.map fun c => (c.1, kp.map fun p => tupleGet c.2 p.1)) ++ body ∧
+      (kp.map (·.2)).Perm
+        ((allPairs x.nrows y.nrows).filter fun p => cmp (keyAt lk p.1) (keyAt rk p.2) == .eq) ∧
+      ∀ p ∈ kp, cmp p.1 (keyAt lk p.2.1) = .eq ∧ cmp p.1 (keyAt rk p.2.2) = .eq := by
+  refine ⟨keyedPairs (joinMatches lk rk), joinBody x y cols mode (joinMatches lk rk), ?_, ?_, ?_, keyedPairs_keys⟩
+  · simp only [join, Option.getD_some, hlen, ne_eq, not_true_eq_false, if_false, hcols, hnd, not_false_eq_true, if_true,
+      joinDup, hlk, hrk, bind, Except.bind, pure, Except.pure, keyRows_eq_map, List.map_map, Function.comp_def]
+  · rw [← joinBody_rows]
+    simp only [keyRows_eq_map, List.map_map, Function.comp_def]
+  · rw [keyedPairs_snd, ← keysOf_length hlk, ← keysOf_length hrk]
+    exact joinPairs_perm lk rk
+
+/-- non-vacuity: `x.join(y, ['a','a'], ['a','u'])` on `exX`, `exY` — one key column `a` in the result (the dict keeps one) -/
+example : ¬ (["a", "a"] : List String).Nodup := by decide
+#guard (match join exX exY (some [.col "a", .col "a"]) (some [.col "a", .col "u"]) .pair with
+  | some (.ok t) => t.map (·.1) == ["a", "v", "u"]
+  | _ => false)
+
+/-- **xor: whatever the key extraction raises is what the call raises** (a missing column: `KeyError`; a formula raising on some row), the
+left table first — as for `join` (`join_key_error_left/right`) -/
+theorem xor_key_error_left (x y : Table) (lc rc : List KeySpec) (mode : Nat) (e : Err)
+    (hlen : lc.length = rc.length) (hne : lc ≠ []) (hlk : x.keysOf lc = .error e) :
+    xor x y (some lc) (some rc) mode = .error e := by
+  have hne' : lc.isEmpty = false := by cases lc <;> simp_all
+  simp [xor, hlen, hne', hlk, bind, Except.bind]
+
+theorem xor_key_error_right (x y : Table) (lc rc : List KeySpec) (mode : Nat) (lk : List Val) (e : Err)
+    (hlen : lc.length = rc.length) (hne : lc ≠ []) (hlk : x.keysOf lc = .ok lk) (hrk : y.keysOf rc = .error e) :
+    xor x y (some lc) (some rc) mode = .error e := by
+  have hne' : lc.isEmpty = false := by cases lc <;> simp_all
+  simp [xor, hlen, hne', hlk, hrk, bind, Except.bind]
+
 end Pyg.Props.C02
